@@ -225,4 +225,21 @@ theorem comAccesses_ok (nd maxlabel label size lsize : Int) (h0 : 0 ≤ label) (
     have e2 : nd * (maxlabel + 1) = (maxlabel + 1) * nd := by ring
     simp only [AccOk, e2]; omega
 
+theorem coocAccesses_ok (m0 m1 maxv v v2 : Int) (hv : v ≤ maxv) (hv2 : v2 ≤ maxv)
+    (hm0 : maxv < m0) (hm1 : maxv < m1) : ∀ a ∈ coocAccesses m0 m1 v v2, AccOk a := by
+  intro a ha
+  simp only [coocAccesses] at ha
+  split at ha
+  · simp at ha
+  · simp only [List.mem_cons, List.not_mem_nil, or_false] at ha
+    rcases ha with rfl | rfl <;> simp only [AccOk] <;> omega
+
+theorem plusMinusAccesses_ok (n plus minus : Int) (hp : 2 * n - 1 ≤ plus) (hm : n ≤ minus) :
+    ∀ a ∈ plusMinusAccesses n plus minus, AccOk a := by
+  intro a ha
+  simp only [plusMinusAccesses, List.mem_flatMap, mem_rangeI, List.mem_cons, List.not_mem_nil,
+    or_false] at ha
+  obtain ⟨i, hi, j, hj, hm⟩ := ha
+  rcases hm with rfl | rfl | rfl | rfl <;> simp only [AccOk] <;> omega
+
 end Mahotas.C10
